@@ -1,6 +1,6 @@
 (* C05 — property theorems (statements only; proofs live in Proofs*.v). *)
 From Coq Require Import List ZArith QArith Bool Sorting.Permutation.
-Require Import QV.C05.Model QV.C05.Spec QV.C05.Proofs QV.C05.Proofs2 QV.C05.Proofs3 QV.C05.Proofs4 QV.C05.Proofs5 QV.C05.Ctors QV.C05.Proofs6.
+Require Import QV.C05.Model QV.C05.Spec QV.C05.Param QV.C05.Proofs QV.C05.Proofs2 QV.C05.Proofs3 QV.C05.Proofs4 QV.C05.Proofs5 QV.C05.Ctors QV.C05.Proofs6 QV.C05.Proofs7 QV.C05.ProofsP.
 Import ListNotations.
 Open Scope Z_scope.
 
@@ -111,3 +111,48 @@ Theorem C05_ctor_parallel_channels_refuted : exists i j values old x,
   ~ same_prog (compile (PPar i (values ++ old) x) [] []) (compile (PPar i values (PPar j old x)) [] []).
 Proof. exact ctor_par_refuted. Qed.
 Print Assumptions C05_ctor_parallel_channels_refuted.
+
+(* RepetitionPT.with_repetition / `**`: an unnamed measurement-free RepetitionPT has its count multiplied (m inner,
+   n outer); same pulse as the explicit nesting, for all counts incl. 0, all bodies, all G *)
+Theorem C05_ctor_repetition_merge : forall i j m n body G,
+  same_prog (compile (PRep i [] (m * n) body) [] G) (compile (PRep i [] n (PRep j [] m body)) [] G).
+Proof. exact ctor_rep_merge. Qed.
+Print Assumptions C05_ctor_repetition_merge.
+Theorem C05_ctor_repetition : forall i u n p G,
+  same_prog (compile (ctor_rep i u n p) [] G) (compile (PRep i [] n p) [] G).
+Proof. exact ctor_rep_same. Qed.
+Print Assumptions C05_ctor_repetition.
+
+(* ---- parametrised templates (Param.v): scopes, parameter mappings that rebind names, loop indices ---- *)
+(* the code threads a scope through _internal_create_program and asks the builder (whose frame stack `its` remembers
+   the running loop indices) for the body scope of loops and repetitions.  For EVERY template, set S, scope, mappings,
+   transformation, builder state and EVERY frame stack this builds exactly what the closed template `inst sc q`
+   builds: the frame stack never reaches the scope (what a MappingPT rebinds between a loop and a repetition stays
+   rebound), and no option set can change which scope a sub-template sees *)
+Theorem C05_scope_threading : forall S q sc cm mm G its b,
+  internal_q S q sc cm mm G its b = internal S (inst sc q) cm mm G b.
+Proof. exact internal_q_inst. Qed.
+Print Assumptions C05_scope_threading.
+Theorem C05_compile_param : forall q ps S G, compile_q q ps S G = compile (inst (scope_of ps) q) S G.
+Proof. exact compile_q_inst. Qed.
+Print Assumptions C05_compile_param.
+
+(* the two option theorems for parametrised templates (guards evaluated on the instantiated template) *)
+Theorem C05_single_waveform_param : forall q ps S, guard_C05_single_waveform S (inst (scope_of ps) q) = true ->
+  match compile_q q ps S [], compile_q q ps [] [] with
+  | Some l, Some l' => ldur l = ldur l' /\ Permutation (windows l) (windows l') /\
+                       forall c t, 0 <= t < ldur l -> play l c t = play l' c t
+  | None, None => True
+  | _, _ => False
+  end.
+Proof. exact single_waveform_param. Qed.
+Print Assumptions C05_single_waveform_param.
+Theorem C05_global_transformation_param : forall q ps S G, guard_C05_parallel_order G (inst (scope_of ps) q) = true ->
+  match compile_q q ps S G, compile_q q ps S [] with
+  | Some l, Some l' => ldur l = ldur l' /\
+                       forall c t, 0 <= t < ldur l -> play l c t = chain_apply G (fun c' => play l' c' t) c
+  | None, None => True
+  | _, _ => False
+  end.
+Proof. exact global_transformation_param. Qed.
+Print Assumptions C05_global_transformation_param.
